@@ -48,7 +48,7 @@ CLAUSES = ["path does not start at the initial state",
            "path does not end at an absorbing state",
            "reported path value is not the total cost of the path",
            "not minimal"]
-BIG = 1000
+BIG = 10 ** 13          # heuristic cost of states that cannot reach a goal (above every finite distance, exact in doubles)
 
 
 # ---------------------------------------------------------------------------
@@ -71,7 +71,7 @@ def exact_dist(case, unit=False):
 def gen_case(rng, scenario=None):
     n = rng.choice([1, 2, 3, 3, 4, 4, 5, 5, 6, 6, 7, 8, 9])
     shape = rng.choice(["random", "random", "forward", "ring"])
-    costmode = rng.choice(["mixed", "mixed", "mixed", "unit", "zero", "zeroheavy"])
+    costmode = rng.choice(["mixed", "mixed", "mixed", "unit", "zero", "zeroheavy", "large"])
     succ = []
     for s in range(n):
         deg = rng.choice([0, 1, 1, 2, 2, 2, 3, 3])
@@ -88,6 +88,8 @@ def gen_case(rng, scenario=None):
                 c = 1
             elif costmode == "zero":
                 c = 0
+            elif costmode == "large":       # big magnitudes, gaps of 1 between totals that must be told apart
+                c = rng.choice([0, 1, 10 ** 6, 10 ** 6 + 1, 10 ** 9, 10 ** 9 + 1])
             elif costmode == "zeroheavy":
                 c = rng.choice([0, 0, 0, 1, 2])
             else:
@@ -110,8 +112,10 @@ def gen_case(rng, scenario=None):
     case = {"n": n, "succ": succ, "goal": goal, "start": start}
     # representation of the deterministic MDP
     r = rng.random()
-    if r < .28:
+    if r < .25:
         case["repr"] = "next_state"
+    elif r < .32:
+        case["repr"] = "dspdist"
     else:
         kinds = ["det", "det", "det", "uniform", "uniform", "uniform", "dict"]
         case["repr"] = rng.choice(kinds) + "/" + rng.choice(kinds)
@@ -143,11 +147,29 @@ def gen_case(rng, scenario=None):
         case["heuristic"], case["h"] = "nested", ["inf" if x is None else x for x in dr]
     case["tie"] = rng.choice(["lifo", "fifo", "random"])
     case["shuffle"] = rng.random() < .5
-    case["seed"] = rng.randrange(10 ** 6) if (case["tie"] == "random" or case["shuffle"]) else None
-    case["bfs_seed"] = rng.randrange(10 ** 6) if (case["shuffle"] or rng.random() < .3) else None
+    case["seed"] = rng.choice([0, rng.randrange(10 ** 6), rng.randrange(10 ** 6)]) if (case["tie"] == "random" or case["shuffle"]) else None
+    case["bfs_seed"] = rng.choice([0, rng.randrange(10 ** 6), rng.randrange(10 ** 6)]) if (case["shuffle"] or rng.random() < .3) else None
+    # how the problem reaches msdm: labels (incl. falsy ones for index 0), containers, number types, object reuse
+    case["labels"] = rng.choice(["int", "int", "int", "perm", "str", "tuple", "float", "bool01"])
+    if case["labels"] == "perm":
+        case["perm"] = [3 * x - 4 for x in rng.sample(range(n), n)]
+    case["alabels"] = rng.choice(["int", "int", "int", "str", "str", "tuple"])
+    case["num_type"] = rng.choice(["float", "float", "int"])
+    case["actions_container"] = rng.choice(["tuple", "list", "dict", "iter"])
+    case["shared_dists"] = rng.random() < .3
+    case["tabular"] = "/" in case["repr"] and rng.random() < .2
+    case["replan"] = rng.random() < .25
+    case["assert_monotone"] = rng.random() < .75
     assert consistent(case)
     if scenario == "two_wrappers":
-        case["other"] = gen_case(rng, scenario="second_wrapper")
+        other = gen_case(rng, scenario="second_wrapper")
+        if rng.random() < .4:     # ONE A* object and ONE BFS object plan on both problems (zero heuristic fits both)
+            case["shared_planner"] = True
+            for c in (case, other):
+                c["heuristic"], c["h"] = "zero", [0] * c["n"]
+            for k in ("tie", "shuffle", "seed", "bfs_seed", "num_type", "assert_monotone"):
+                other[k] = case[k]
+        case["other"] = other
     return case
 
 
@@ -179,7 +201,13 @@ def features(case):
             "some_goal_unreachable": any(case["goal"][s] for s in range(case["n"])) and d[case["start"]] is None,
             "dead_state": any(x is None for x in d),
             "repr_" + case["repr"].replace("/", "_"): True, "h_" + case["heuristic"]: True,
-            "tie_" + case["tie"]: True, "shuffle": case["shuffle"], "scenario_" + case.get("scenario", "plain"): True}
+            "tie_" + case["tie"]: True, "shuffle": case["shuffle"], "scenario_" + case.get("scenario", "plain"): True,
+            "labels_" + case.get("labels", "int"): True, "alabels_" + case.get("alabels", "int"): True,
+            "num_" + case.get("num_type", "float"): True, "actions_as_" + case.get("actions_container", "tuple"): True,
+            "shared_dists": case.get("shared_dists", False), "tabular_touched": case.get("tabular", False),
+            "replan_same_planner": case.get("replan", False), "shared_planner_two_problems": case.get("shared_planner", False),
+            "assert_monotone_off": not case.get("assert_monotone", True), "large_costs": any(c >= 10 ** 6 for row in case["succ"] for _, _, c in row),
+            "seed_0": case.get("seed") == 0 or case.get("bfs_seed") == 0, "start_0": case["start"] == 0, "single_state": case["n"] == 1}
 
 
 # ---------------------------------------------------------------------------
@@ -290,10 +318,18 @@ def run(ctx):
         if parent.get("scenario") == "two_wrappers":
             units.append((parent, parent["other"], res["other"]))
     n_nested_h = 0
+    branch = {"astar_runs_with_repush": 0, "astar_runs_with_stale_pop": 0, "astar_goal_popped": 0, "astar_fell_through": 0,
+              "bfs_goal_popped": 0, "bfs_fell_through": 0}
     for i, (parent, case, res) in enumerate(units):
         for k, v in features(case).items():
             if v:
                 feats[k] = feats.get(k, 0) + 1
+        for alg in ("astar", "bfs"):
+            o = res[alg]
+            if "error" not in o:
+                branch[alg + ("_fell_through" if o["plan"] is None else "_goal_popped")] += 1
+        branch["astar_runs_with_repush"] += res["astar"].get("repushes", 0) > 0
+        branch["astar_runs_with_stale_pop"] += res["astar"].get("stale_pops", 0) > 0
         if "h_seen" in res["astar"]:
             # the nested searches' path values must be the exact relaxed costs-to-go (they are A* results themselves)
             for st, v in res["astar"]["h_seen"].items():
@@ -306,7 +342,7 @@ def run(ctx):
                                    "failing_clause": {"clause": "nested search on the relaxed problem reports a path value that is not the least cost",
                                                       "reported": v, "least": want}}, found=True)
         gt = graph_term(case)
-        kinds = [] if case["repr"] == "next_state" else case["repr"].split("/")
+        kinds = [] if case["repr"] == "next_state" else ["det", "det"] if case["repr"] == "dspdist" else case["repr"].split("/")
         # the initial distribution is always read; a next-state distribution only if the start gets expanded
         expands = not case["goal"][case["start"]] and bool(case["succ"][case["start"]])
         model_accepts = all(model_reads[k] for k in (kinds if expands else kinds[:1]))
@@ -422,7 +458,7 @@ def run(ctx):
         "samples": [{"case": cases[0], "impl": impl[0]}] if cases else [],
         "certificate_checks": nchk, "certificate_accepts": accepted, "mirror_runs": nmir, "mirror_drift": drift,
         "mirror_drift_samples": drift_samples,
-        "nested_heuristic_values_checked": n_nested_h,
+        "nested_heuristic_values_checked": n_nested_h, "branch_counts": branch,
         "dict_distribution_runs_raising_TypeError": n_dict_err,
         "infinite_heuristic_runs_raising_AssertionError": n_inf_assert,
         "from_mdp_model": model_reads, "from_mdp_model_behind_code_runs": stale_from_mdp_model,
